@@ -30,3 +30,35 @@ Fixpoint c01_hyp_trace (s : state) (os : list op) (i : nat) : option (nat * nat)
     | OutOfFuel => Some (i, 97%nat)
     end
   end.
+
+(** The quiescent invariant along replayed histories, with the height clause (Q5) read for live
+    nodes only: an invalidated node of a discarded generation that an observer of its own keeps
+    registered is not lifted when its former bind is (it is no longer among the bind's
+    right-hand-side nodes), so it may sit at or below the lhs-change node's height.  Nothing
+    depends on the height of a node that can never run again; [EngineWf.wfb] and the theorems
+    about it ([EngineInv.Inv_wfb]) speak of states without such nodes. *)
+Definition heights_ordered_live (s : state) : bool :=
+  forallb (fun n => let x := nd s n in
+     negb (inGraph x) || negb (valid x) ||
+     ((0 <=? height x) && (height x <? maxHeight s)
+      && forallb (fun p => height (nd s p) <? height x) (parents x)
+      && (scopeHeight s (scope x) <? height x)))
+    (allNodes s).
+
+Definition codes_live (s : state) : list nat :=
+  filter (fun c => negb ((c =? 5)%nat && heights_ordered_live s)) (codes s).
+
+Fixpoint wf_trace_live (s : state) (os : list op) (i : nat) : option (nat * list nat) :=
+  match os with
+  | [] => None
+  | o :: os =>
+    if negb (op_ok s o) then Some (i, [99%nat]) else
+    match step (s <| log := [] |>) o with
+    | Ok (s', _) => match codes_live s' with
+                    | [] => wf_trace_live s' os (S i)
+                    | cs => Some (i, cs)
+                    end
+    | Crash _ => Some (i, [98%nat])
+    | OutOfFuel => Some (i, [97%nat])
+    end
+  end.
